@@ -481,9 +481,7 @@ Proof.
   destruct H as [H|[H|[H|[H|[H|[H|[H|H]]]]]]]; subst em; destruct rela;
     vm_compute in Hf; try discriminate; inversion Hf; subst fam; clear Hf;
     unfold recipe_of in Hr; cbn [sassoc gen_recipe_families String.eqb Ascii.eqb Bool.eqb] in Hr;
-    apply zassoc_In in Hr; cbv delta [gen_recipes_ARM gen_recipes_AARCH64 gen_recipes_MIPS_REL gen_recipes_MIPS_RELA
-      gen_recipes_PPC64 gen_recipes_X86 gen_recipes_X64 gen_recipes_LOONGARCH gen_recipes_S390X] in Hr;
-    cbn [In] in Hr;
+    apply zassoc_In in Hr; vm_compute in Hr;
     repeat (destruct Hr as [Hr|Hr]; [inversion Hr; subst; clear Hr;
                                       first [right; vm_compute; discriminate | left; split; reflexivity]|]);
     destruct Hr.
@@ -499,3 +497,745 @@ Proof.
     apply Z.eqb_eq in E1, E3. apply Bool.eqb_prop in E2. subst. exists nm. left. reflexivity.
   - destruct (IH H) as [name Hin]. exists name. right. exact Hin.
 Qed.
+
+(* ------------------------------------------------------------------ D. the apply loop *)
+Lemma splice_same : @eq (list Z -> nat -> list Z -> list Z) C08Reloc.splice C08Spec.splice.
+Proof. reflexivity. Qed.
+
+Lemma splice_length s off bs :
+  (off + length bs <= length s)%nat -> length (C08Spec.splice s off bs) = length s.
+Proof.
+  intros H. unfold C08Spec.splice. rewrite !app_length, firstn_length_le, skipn_length by lia. lia.
+Qed.
+
+Lemma nth_firstn_lt {A} (d : A) : forall n k l, (k < n)%nat -> nth k (firstn n l) d = nth k l d.
+Proof.
+  induction n as [|n IH]; intros k l H; [lia|].
+  destruct l as [|x l]; [destruct k; reflexivity|].
+  destruct k as [|k]; [reflexivity|]. cbn [firstn nth]. apply IH. lia.
+Qed.
+
+Lemma nth_skipn_add {A} (d : A) : forall a k l, nth k (skipn a l) d = nth (a + k) l d.
+Proof.
+  induction a as [|a IH]; intros k l; [reflexivity|].
+  destruct l as [|x l]; [destruct k; reflexivity|]. cbn [skipn Nat.add nth]. apply IH.
+Qed.
+
+Lemma skipn_add {A} (l : list A) : forall a b, skipn (a + b) l = skipn b (skipn a l).
+Proof.
+  induction l as [|x l IH]; intros a b.
+  - rewrite !skipn_nil. reflexivity.
+  - destruct a as [|a]; [reflexivity|]. cbn [Nat.add skipn]. apply IH.
+Qed.
+
+Lemma splice_self s off n :
+  (off + n <= length s)%nat -> C08Spec.splice s off (firstn n (skipn off s)) = s.
+Proof.
+  intros H. unfold C08Spec.splice. rewrite firstn_length_le by (rewrite skipn_length; lia).
+  rewrite <- (firstn_skipn off s) at 4. f_equal.
+  rewrite <- (firstn_skipn n (skipn off s)) at 2. f_equal.
+  rewrite skipn_add. reflexivity.
+Qed.
+
+(* bytes outside [off, off + |bs|) are untouched *)
+Lemma splice_outside s off bs i d :
+  (off + length bs <= length s)%nat -> (i < off \/ off + length bs <= i)%nat ->
+  nth i (C08Spec.splice s off bs) d = nth i s d.
+Proof.
+  intros H Hi. unfold C08Spec.splice. destruct Hi as [Hi|Hi].
+  - rewrite app_nth1 by (rewrite firstn_length_le; lia).
+    rewrite <- (firstn_skipn off s) at 2. rewrite app_nth1 by (rewrite firstn_length_le; lia). reflexivity.
+  - rewrite app_nth2 by (rewrite firstn_length_le; lia). rewrite firstn_length_le by lia.
+    rewrite app_nth2 by lia.
+    rewrite <- (firstn_skipn (off + length bs) s) at 2.
+    rewrite app_nth2 by (rewrite firstn_length_le; lia). rewrite firstn_length_le by lia.
+    f_equal. lia.
+Qed.
+
+(* the written field reads back *)
+Lemma splice_slice s off bs :
+  (off + length bs <= length s)%nat -> slice (C08Spec.splice s off bs) off (length bs) = bs.
+Proof.
+  intros H. unfold C08Spec.splice.
+  pose proof (slice_app_exact (firstn off s) bs (skipn (off + length bs) s)) as E.
+  rewrite firstn_length_le in E by lia. exact E.
+Qed.
+
+Lemma all_bytes_firstn n l : all_bytes l = true -> all_bytes (firstn n l) = true.
+Proof.
+  intros H. rewrite <- (firstn_skipn n l), all_bytes_app in H. apply andb_prop in H. tauto.
+Qed.
+Lemma all_bytes_skipn n l : all_bytes l = true -> all_bytes (skipn n l) = true.
+Proof.
+  intros H. rewrite <- (firstn_skipn n l), all_bytes_app in H. apply andb_prop in H. tauto.
+Qed.
+
+Lemma splice_bytes s off bs :
+  all_bytes s = true -> all_bytes bs = true -> all_bytes (C08Spec.splice s off bs) = true.
+Proof.
+  intros Hs Hb. unfold C08Spec.splice. rewrite !all_bytes_app, Hb, all_bytes_firstn, all_bytes_skipn by assumption.
+  reflexivity.
+Qed.
+
+Lemma take_ok n (l : list Z) : (n <= length l)%nat -> take n l = Some (firstn n l, skipn n l).
+Proof. intros H. unfold take. destruct (Nat.leb_spec n (length l)); [reflexivity | lia]. Qed.
+
+(* reading an in-bounds field *)
+Lemma read_value_ok le n s off :
+  0 <= off -> off + Z.of_nat n <= zlen s -> zlen s < 2 ^ 63 ->
+  read_value le n s off = Ok (int_decode le (slice s (Z.to_nat off) n)).
+Proof.
+  intros H0 H1 H2. unfold read_value.
+  destruct (Z.ltb_spec off 0); [lia|]. destruct (Z.leb_spec (2 ^ 63) off); [lia|].
+  rewrite zskipn_skipn by lia. rewrite take_ok; [reflexivity|].
+  rewrite skipn_length. unfold zlen in *. lia.
+Qed.
+
+(* field access on the decoded view of an entry *)
+Lemma view_fields is64 m64 rela e :
+  let v := rent_view is64 m64 rela e in
+  getf v "r_info_sym" = Ok (r_sym e) /\ getf v "r_info_type" = Ok (r_typ e) /\
+  getf v "r_offset" = Ok (r_off e) /\ has_field v "r_addend" = rela /\
+  (rela = true -> getf v "r_addend" = Ok (r_add e)) /\
+  (m64 = true -> getf v "r_type2" = Ok (r_t2 e) /\ getf v "r_type3" = Ok (r_t3 e) /\ getf v "r_ssym" = Ok (r_ssym e)).
+Proof.
+  destruct m64, rela; cbv - [r_sym r_typ r_off r_add r_t2 r_t3 r_ssym mips64_info r_info_of];
+    repeat split; intros; try reflexivity; discriminate.
+Qed.
+
+Section apply_one.
+Variables (le is64 : bool) (em : Z) (rela : bool) (symvals : list Z) (symval : Z -> res Z).
+Hypothesis Hem : In em listed_machines.
+Hypothesis Hsymval : forall n, 0 <= n < zlen symvals -> symval n = Ok (nth (Z.to_nat n) symvals 0).
+Hypothesis Hsym0 : nth 0 symvals 0 = 0.
+
+Lemma sym_S_nth sym : sym_S symvals sym = nth (Z.to_nat sym) symvals 0.
+Proof.
+  unfold sym_S. destruct (Z.eqb_spec sym 0) as [E|E]; [|reflexivity]. subst. symmetry. exact Hsym0.
+Qed.
+
+Lemma rent_wf_sym_nonneg m64 e : rent_wf is64 m64 rela e = true -> 0 <= r_sym e.
+Proof.
+  intros H. destruct m64; [|destruct is64]; wf_split H; unfold inr in *; lia.
+Qed.
+
+Lemma width_check b : is_width b -> negb ((b =? 4) || (b =? 8) || (b =? 1) || (b =? 2)) = false.
+Proof. intros [H|[H|[H|H]]]; subst; reflexivity. Qed.
+
+(* the non-NONE rows: the model writes the psABI value *)
+Lemma apply_field_case s e n f bytesize ha (calc : Z -> Z -> Z -> Z -> Z) :
+  all_bytes s = true -> zlen s < 2 ^ 63 ->
+  0 <= r_off e -> r_off e + Z.of_nat n <= zlen s ->
+  bytesize = Z.of_nat n ->
+  (rela = false -> ha = false) ->
+  (forall V S P A, wrap n (calc V S P (if ha then A else 0)) = wrap n (eval_formula f V S P (if rela then A else V))) ->
+  (do original_value <- read_value le (Z.to_nat bytesize) s (r_off e);
+   do addend <- (if ha then getf (rent_view is64 (is64 && is_mips em) rela e) "r_addend" else Ok 0);
+   Ok (C08Reloc.splice s (Z.to_nat (r_off e))
+         (int_encode le (Z.to_nat bytesize)
+            (calc original_value (nth (Z.to_nat (r_sym e)) symvals 0) (r_off e) addend mod 2 ^ (bytesize * 8)))))
+  = Ok (C08Spec.splice s (Z.to_nat (r_off e))
+         (int_encode le n (wrap n (eval_formula f (int_decode le (slice s (Z.to_nat (r_off e)) n))
+                                                 (sym_S symvals (r_sym e)) (r_off e)
+                                                 (if rela then r_add e
+                                                  else int_decode le (slice s (Z.to_nat (r_off e)) n)))))).
+Proof.
+  intros Hb Hlen H0 H1 Hbs Hha Hcalc. subst bytesize. rewrite Nat2Z.id.
+  rewrite read_value_ok by assumption. cbn [bind].
+  destruct (view_fields is64 (is64 && is_mips em) rela e) as (_ & _ & _ & _ & Hadd & _).
+  assert (Haddend : (if ha then getf (rent_view is64 (is64 && is_mips em) rela e) "r_addend" else Ok 0)
+                    = Ok (if ha then r_add e else 0)).
+  { destruct ha; [|reflexivity]. apply Hadd. destruct rela; [reflexivity|]. specialize (Hha eq_refl). discriminate. }
+  rewrite Haddend. cbn [bind]. rewrite splice_same. f_equal. f_equal. f_equal.
+  rewrite sym_S_nth. replace (Z.of_nat n * 8) with (8 * Z.of_nat n) by lia.
+  apply Hcalc.
+Qed.
+
+Theorem apply_one_refines s e :
+  all_bytes s = true -> zlen s < 2 ^ 63 ->
+  rent_wf is64 (is64 && is_mips em) rela e = true ->
+  apply_entry_wf is64 em rela (zlen s) e = true ->
+  do_apply_relocation le is64 em (zlen symvals) symval s (rent_view is64 (is64 && is_mips em) rela e)
+  = spec_apply_one le is64 em rela symvals s e.
+Proof.
+  intros Hb Hlen Hwf Hawf.
+  destruct (view_fields is64 (is64 && is_mips em) rela e) as (Vsym & Vtyp & Voff & Vrela & Vadd & Vm).
+  cbv zeta in Vsym, Vtyp, Voff, Vrela, Vadd, Vm.
+  unfold do_apply_relocation, spec_apply_one.
+  rewrite Vsym. cbn [bind].
+  pose proof (rent_wf_sym_nonneg _ _ Hwf) as Hs0.
+  destruct (Z.leb_spec (zlen symvals) (r_sym e)) as [Hoor|Hin];
+    destruct (Z.ltb_spec (r_sym e) (zlen symvals)) as [Hin'|Hoor']; try lia; cbn [negb]; [reflexivity|].
+  rewrite Hsymval by lia. cbn [bind]. rewrite Vtyp. cbn [bind]. rewrite Vrela.
+  pose proof (dispatch_matches_psabi em rela Hem) as Hdisp. unfold family_for in Hdisp.
+  destruct (machine_is_mips em Hem) as [Harch Hmips].
+  destruct (family_of (reloc_dispatch (machine_arch em) rela)) as [fam|] eqn:Efam;
+    rewrite <- Hdisp; cbn [negb]; [|reflexivity].
+  (* the MIPS64 compound check *)
+  rewrite Harch. change gen_R_MIPS_64 with 18.
+  assert (Hcheck :
+    (if (em =? EM_MIPS) && rela && (r_typ e =? 18) && is64
+     then do t2 <- getf (rent_view is64 (is64 && is_mips em) rela e) "r_type2";
+          do t3 <- getf (rent_view is64 (is64 && is_mips em) rela e) "r_type3";
+          do ss <- getf (rent_view is64 (is64 && is_mips em) rela e) "r_ssym";
+          if negb (t2 =? 0) || negb (t3 =? 0) || negb (ss =? 0) then Err EReloc else Ok tt
+     else Ok tt)
+    = if (em =? EM_MIPS) && rela && is64 && (r_typ e =? 18) && mips64_compound e then Err EReloc else Ok tt).
+  { destruct (em =? EM_MIPS) eqn:E1, rela eqn:E2, (r_typ e =? 18) eqn:E3, is64 eqn:E4; cbn [andb]; try reflexivity.
+    rewrite Hmips in Vm. cbn [andb] in Vm. destruct (Vm eq_refl) as (V2 & V3 & Vs).
+    rewrite Hmips. cbn [andb]. rewrite V2, V3, Vs. cbn [bind]. unfold mips64_compound.
+    destruct (r_t2 e =? 0), (r_t3 e =? 0), (r_ssym e =? 0); reflexivity. }
+  rewrite Hcheck. clear Hcheck.
+  destruct ((em =? EM_MIPS) && rela && is64 && (r_typ e =? 18) && mips64_compound e); [reflexivity|]. cbn [bind].
+  unfold apply_entry_wf in Hawf. apply andb_prop in Hawf. destruct Hawf as [Hawf Harm].
+  apply andb_prop in Hawf. destruct Hawf as [Hfield Hcomp].
+  destruct (psabi_lookup em rela (r_typ e)) as [[n f]|] eqn:Elk.
+  - destruct (psabi_find_In _ _ _ _ _ _ Elk) as [name Hrowin].
+    destruct (calc_matches_psabi _ _ _ _ _ _ Hrowin) as (fam' & bytesize & ha & cid & calc & Hfam & Hrec & Hcalc & Hw & Hha & Hrow).
+    unfold family_for in Hfam. rewrite Efam in Hfam. inversion Hfam; subst fam'. clear Hfam.
+    rewrite Hrec, (width_check _ Hw), Voff, Hcalc. cbn [bind].
+    destruct f.
+    + (* R_*_NONE: the bytes read are written back *)
+      apply andb_prop in Hfield. destruct Hfield as [Hf0 Hf1].
+      assert (Hbw : 0 <= bytesize <= 8) by (destruct Hw as [?|[?|[?|?]]]; lia).
+      rewrite read_value_ok by lia. cbn [bind].
+      assert (Haddend : exists a, (if ha then getf (rent_view is64 (is64 && is_mips em) rela e) "r_addend" else Ok 0) = Ok a).
+      { destruct ha; [|eexists; reflexivity]. exists (r_add e). apply Vadd.
+        destruct rela; [reflexivity|]. specialize (Hha eq_refl). discriminate. }
+      destruct Haddend as [a Ha]. rewrite Ha. cbn [bind]. rewrite Hrow.
+      set (fld := slice s (Z.to_nat (r_off e)) (Z.to_nat bytesize)).
+      assert (Hfl : length fld = Z.to_nat bytesize).
+      { unfold fld, slice. rewrite firstn_length_le; [reflexivity|]. rewrite skipn_length. unfold zlen in *. lia. }
+      assert (Hfb : all_bytes fld = true) by (apply all_bytes_firstn, all_bytes_skipn; exact Hb).
+      pose proof (int_decode_bound le fld Hfb) as Hbd. rewrite Hfl in Hbd.
+      rewrite Z.mod_small by (replace (bytesize * 8) with (8 * Z.of_nat (Z.to_nat bytesize)) by lia; exact Hbd).
+      rewrite <- Hfl at 1. rewrite int_encode_decode by exact Hfb.
+      rewrite splice_same. unfold fld, slice. rewrite splice_self; [reflexivity|]. unfold zlen in *. lia.
+    + destruct Hrow as [Hbs Hrow]. apply andb_prop in Hfield. destruct Hfield as [Hf0 Hf1].
+      rewrite Hf0, Hf1. cbn [andb]. apply apply_field_case; try assumption; lia.
+    + destruct Hrow as [Hbs Hrow]. apply andb_prop in Hfield. destruct Hfield as [Hf0 Hf1].
+      rewrite Hf0, Hf1. cbn [andb]. apply apply_field_case; try assumption; lia.
+    + destruct Hrow as [Hbs Hrow]. apply andb_prop in Hfield. destruct Hfield as [Hf0 Hf1].
+      rewrite Hf0, Hf1. cbn [andb]. apply apply_field_case; try assumption; lia.
+    + destruct Hrow as [Hbs Hrow]. apply andb_prop in Hfield. destruct Hfield as [Hf0 Hf1].
+      rewrite Hf0, Hf1. cbn [andb]. apply apply_field_case; try assumption; lia.
+  - destruct (recipe_of fam (r_typ e)) as [r|] eqn:Er; [|reflexivity].
+    exfalso. destruct (recipes_within_psabi em rela fam (r_typ e) r Hem Efam Er) as [[E1 E2]|Hne].
+    + rewrite E1, E2 in Harm. discriminate.
+    + apply Hne. exact Elk.
+Qed.
+End apply_one.
+
+(* ---------- the reference application: shape, frame, errors ---------- *)
+(* a successful step either leaves the section alone (R_*_NONE) or overwrites exactly the n bytes
+   of the field with the wrapped psABI value *)
+Lemma spec_apply_one_shape le is64 em rela symvals s e s' :
+  spec_apply_one le is64 em rela symvals s e = Ok s' ->
+  r_sym e < zlen symvals /\ flavour_ok em rela = true /\
+  exists n f, psabi_lookup em rela (r_typ e) = Some (n, f) /\
+    ((f = FNone /\ s' = s) \/
+     (f <> FNone /\ 0 <= r_off e /\ r_off e + Z.of_nat n <= zlen s /\
+      s' = C08Spec.splice s (Z.to_nat (r_off e))
+             (int_encode le n (wrap n (eval_formula f (int_decode le (slice s (Z.to_nat (r_off e)) n))
+                                                     (sym_S symvals (r_sym e)) (r_off e)
+                                                     (if rela then r_add e
+                                                      else int_decode le (slice s (Z.to_nat (r_off e)) n))))))).
+Proof.
+  unfold spec_apply_one. intros H.
+  destruct (Z.ltb_spec (r_sym e) (zlen symvals)) as [Hs|Hs]; cbn [negb] in H; [|discriminate].
+  destruct (flavour_ok em rela); cbn [negb] in H; [|discriminate].
+  destruct ((em =? EM_MIPS) && rela && is64 && (r_typ e =? 18) && mips64_compound e); [discriminate|].
+  destruct (psabi_lookup em rela (r_typ e)) as [[n f]|]; [|discriminate].
+  split; [exact Hs|]. split; [reflexivity|]. exists n, f. split; [reflexivity|].
+  destruct f; [left; inversion H; auto | | | |];
+    (right; destruct (Z.leb_spec 0 (r_off e)); destruct (Z.leb_spec (r_off e + Z.of_nat n) (zlen s));
+     cbn [andb] in H; try discriminate; inversion H; repeat split; try assumption; discriminate).
+Qed.
+
+Lemma spec_apply_one_preserves le is64 em rela symvals s e s' :
+  all_bytes s = true ->
+  spec_apply_one le is64 em rela symvals s e = Ok s' -> zlen s' = zlen s /\ all_bytes s' = true.
+Proof.
+  intros Hb H. apply spec_apply_one_shape in H.
+  destruct H as (_ & _ & n & f & _ & [[_ E]|(_ & H0 & H1 & E)]); subst s'; [auto|].
+  split.
+  - unfold zlen. rewrite splice_length; [reflexivity|]. rewrite int_encode_length. unfold zlen in H1. lia.
+  - apply splice_bytes; [exact Hb | apply int_encode_bytes].
+Qed.
+
+(* FRAME for one relocation: same length; every byte outside [r_offset, r_offset+n) unchanged;
+   the field decodes, in the file's byte order, to the psABI value wrapped to the field width *)
+Theorem apply_one_frame le is64 em rela symvals s e s' :
+  spec_apply_one le is64 em rela symvals s e = Ok s' ->
+  exists n f, psabi_lookup em rela (r_typ e) = Some (n, f) /\
+    length s' = length s /\
+    (forall i d, (f = FNone \/ Z.of_nat i < r_off e \/ r_off e + Z.of_nat n <= Z.of_nat i) ->
+                 nth i s' d = nth i s d) /\
+    (f <> FNone ->
+     int_decode le (slice s' (Z.to_nat (r_off e)) n)
+     = wrap n (eval_formula f (int_decode le (slice s (Z.to_nat (r_off e)) n))
+                            (sym_S symvals (r_sym e)) (r_off e)
+                            (if rela then r_add e else int_decode le (slice s (Z.to_nat (r_off e)) n)))).
+Proof.
+  intros H. apply spec_apply_one_shape in H.
+  destruct H as (_ & _ & n & f & Hlk & [[Ef E]|(Hf & H0 & H1 & E)]); exists n, f; (split; [exact Hlk|]); subst s'.
+  - split; [reflexivity|]. split; [reflexivity|]. intros Hne. contradiction.
+  - set (bs := int_encode le n _).
+    assert (Hl : length bs = n) by apply int_encode_length.
+    assert (Hfit : (Z.to_nat (r_off e) + length bs <= length s)%nat) by (unfold zlen in H1; lia).
+    split; [apply splice_length; exact Hfit|]. split.
+    + intros i d [Hc|Hc]; [contradiction|]. apply splice_outside; [exact Hfit | lia].
+    + intros _. rewrite <- Hl at 1. rewrite splice_slice by exact Hfit.
+      unfold bs. rewrite int_decode_encode. unfold wrap. apply Z.mod_mod. pose proof (pow256_pos n). lia.
+Qed.
+
+(* ERRORS of one relocation, exactly: ELFRelocationError iff the symbol index is out of range, the
+   flavour is not the machine's, the entry is a compound MIPS64 R_MIPS_64, or the type is not
+   supported; otherwise the only other failure is a field that leaves the section *)
+Theorem apply_one_errors le is64 em rela symvals s e :
+  let reloc_error := negb (r_sym e <? zlen symvals) || negb (flavour_ok em rela) ||
+                     ((em =? EM_MIPS) && rela && is64 && (r_typ e =? 18) && mips64_compound e) ||
+                     match psabi_lookup em rela (r_typ e) with None => true | Some _ => false end in
+  (reloc_error = true -> spec_apply_one le is64 em rela symvals s e = Err EReloc) /\
+  (reloc_error = false ->
+     (exists s', spec_apply_one le is64 em rela symvals s e = Ok s') \/
+     spec_apply_one le is64 em rela symvals s e = Err EParse).
+Proof.
+  cbv zeta. unfold spec_apply_one.
+  destruct (negb (r_sym e <? zlen symvals)); cbn [orb]; [split; [reflexivity|discriminate]|].
+  destruct (negb (flavour_ok em rela)); cbn [orb]; [split; [reflexivity|discriminate]|].
+  destruct ((em =? EM_MIPS) && rela && is64 && (r_typ e =? 18) && mips64_compound e); cbn [orb];
+    [split; [reflexivity|discriminate]|].
+  destruct (psabi_lookup em rela (r_typ e)) as [[n f]|]; [|split; [reflexivity|discriminate]].
+  split; [discriminate|]. intros _.
+  destruct f; [left; eexists; reflexivity | | | |];
+    (destruct ((0 <=? r_off e) && (r_off e + Z.of_nat n <=? zlen s)); [left; eexists; reflexivity | right; reflexivity]).
+Qed.
+
+(* sequential composition *)
+Lemma spec_apply_all_app le is64 em rela symvals : forall es1 es2 s,
+  spec_apply_all le is64 em rela symvals s (es1 ++ es2)
+  = do s1 <- spec_apply_all le is64 em rela symvals s es1; spec_apply_all le is64 em rela symvals s1 es2.
+Proof.
+  induction es1 as [|e es1 IH]; intros es2 s; [reflexivity|].
+  cbn [app spec_apply_all]. destruct (spec_apply_one le is64 em rela symvals s e) as [s1|er]; cbn [bind]; auto.
+Qed.
+
+(* does relocation e write byte i ? *)
+Definition touches (em : Z) (rela : bool) (e : rent) (i : Z) : bool :=
+  match psabi_lookup em rela (r_typ e) with
+  | Some (_, FNone) | None => false
+  | Some (n, _) => (r_off e <=? i) && (i <? r_off e + Z.of_nat n)
+  end.
+
+(* NOTHING IS SKIPPED and nothing else is touched: a successful run means every entry was a supported
+   relocation of the machine's flavour with a valid symbol; the length is unchanged and every byte
+   that no entry covers keeps its value *)
+Theorem apply_all_frame le is64 em rela symvals : forall es s s',
+  spec_apply_all le is64 em rela symvals s es = Ok s' ->
+  length s' = length s /\
+  (forall e, In e es -> r_sym e < zlen symvals /\ flavour_ok em rela = true /\
+                        psabi_lookup em rela (r_typ e) <> None) /\
+  (forall i d, forallb (fun e => negb (touches em rela e (Z.of_nat i))) es = true -> nth i s' d = nth i s d).
+Proof.
+  induction es as [|e es IH]; intros s s' H.
+  - inversion H; subst. split; [reflexivity|]. split; [intros e []|]. reflexivity.
+  - cbn [spec_apply_all] in H.
+    destruct (spec_apply_one le is64 em rela symvals s e) as [s1|er] eqn:E1; cbn [bind] in H; [|discriminate].
+    destruct (IH _ _ H) as (Hl & Hall & Hfr).
+    pose proof (spec_apply_one_shape _ _ _ _ _ _ _ _ E1) as (Hs & Hfl & n0 & f0 & Hlk0 & _).
+    destruct (apply_one_frame _ _ _ _ _ _ _ _ E1) as (n & f & Hlk & Hl1 & Hout & _).
+    split; [congruence|]. split.
+    + intros e' [He|He]; [subst e'; repeat split; try assumption; congruence | apply Hall; exact He].
+    + intros i d Hi. cbn [forallb] in Hi. apply andb_prop in Hi. destruct Hi as [Hi1 Hi2].
+      rewrite Hfr by exact Hi2. apply Hout.
+      unfold touches in Hi1. rewrite Hlk in Hi1.
+      destruct f; [left; reflexivity | | | |]; right; lia.
+Qed.
+
+(* the field of entry e holds e's value computed on the state just before e, provided no later
+   entry writes into it (overlapping earlier entries are seen through the in-place value) *)
+Theorem apply_all_field le is64 em rela symvals es1 e es2 s s' :
+  spec_apply_all le is64 em rela symvals s (es1 ++ e :: es2) = Ok s' ->
+  exists s1 n f,
+    spec_apply_all le is64 em rela symvals s es1 = Ok s1 /\
+    psabi_lookup em rela (r_typ e) = Some (n, f) /\
+    (f <> FNone ->
+     (forall i, r_off e <= Z.of_nat i < r_off e + Z.of_nat n ->
+                forallb (fun e' => negb (touches em rela e' (Z.of_nat i))) es2 = true) ->
+     int_decode le (slice s' (Z.to_nat (r_off e)) n)
+     = wrap n (eval_formula f (int_decode le (slice s1 (Z.to_nat (r_off e)) n))
+                            (sym_S symvals (r_sym e)) (r_off e)
+                            (if rela then r_add e else int_decode le (slice s1 (Z.to_nat (r_off e)) n)))).
+Proof.
+  intros H. rewrite spec_apply_all_app in H.
+  destruct (spec_apply_all le is64 em rela symvals s es1) as [s1|er]; cbn [bind] in H; [|discriminate].
+  cbn [spec_apply_all] in H.
+  destruct (spec_apply_one le is64 em rela symvals s1 e) as [s2|er] eqn:E1; cbn [bind] in H; [|discriminate].
+  pose proof (spec_apply_one_shape _ _ _ _ _ _ _ _ E1) as (_ & _ & n0 & f0 & Hlk0 & Hshape).
+  destruct (apply_one_frame _ _ _ _ _ _ _ _ E1) as (n & f & Hlk & Hl1 & _ & Hfield).
+  exists s1, n, f. split; [reflexivity|]. split; [exact Hlk|].
+  intros Hne Hlater. rewrite <- (Hfield Hne).
+  destruct (apply_all_frame _ _ _ _ _ _ _ _ H) as (Hl2 & _ & Hfr).
+  (* the n bytes of the field are the same in s' and s2 *)
+  rewrite Hlk in Hlk0. inversion Hlk0; subst n0 f0. clear Hlk0.
+  destruct Hshape as [[Ef _]|(_ & H0 & H1 & _)]; [contradiction|].
+  f_equal. unfold slice.
+  apply nth_ext with (d := 0) (d' := 0).
+  - rewrite !firstn_length, !skipn_length. lia.
+  - intros k Hk. rewrite firstn_length, skipn_length in Hk.
+    rewrite !nth_firstn_lt by lia.
+    rewrite !nth_skipn_add. apply Hfr.
+    replace (Z.of_nat (Z.to_nat (r_off e) + k)) with (r_off e + Z.of_nat k) by lia.
+    specialize (Hlater (Z.to_nat (r_off e) + k)%nat).
+    replace (Z.of_nat (Z.to_nat (r_off e) + k)) with (r_off e + Z.of_nat k) in Hlater by lia.
+    apply Hlater. lia.
+Qed.
+
+(* ---------- the model's loop over an encoded table = the reference application ---------- *)
+Section apply_all.
+Variables (le is64 : bool) (em : Z) (rela : bool) (symvals : list Z) (symval : Z -> res Z).
+Hypothesis Hem : In em listed_machines.
+Hypothesis Hsymval : forall n, 0 <= n < zlen symvals -> symval n = Ok (nth (Z.to_nat n) symvals 0).
+Hypothesis Hsym0 : nth 0 symvals 0 = 0.
+
+Lemma apply_loop_refines roff tail : forall es pre i s,
+  forallb (rent_wf is64 (is64 && is_mips em) rela) es = true ->
+  forallb (apply_entry_wf is64 em rela (zlen s)) es = true ->
+  all_bytes s = true -> zlen s < 2 ^ 63 ->
+  roff + i * rel_entsize is64 (is64 && is_mips em) rela = zlen pre ->
+  apply_loop le is64 em (rel_struct le is64 (is_mips em) rela)
+             (pre ++ encode_table le is64 (is64 && is_mips em) rela es ++ tail) roff
+             (zlen symvals) symval (length es) i s
+  = spec_apply_all le is64 em rela symvals s es.
+Proof.
+  induction es as [|e es IH]; intros pre i s Hwf Hawf Hb Hlen Hoff; [reflexivity|].
+  cbn [forallb] in Hwf, Hawf. apply andb_prop in Hwf, Hawf. destruct Hwf as [He Hes]. destruct Hawf as [Hae Haes].
+  cbn [length apply_loop spec_apply_all]. unfold get_relocation, struct_parse_at.
+  rewrite rel_struct_sizeof, Hoff.
+  destruct (Z.ltb_spec (zlen pre) 0) as [Hneg|_]; [pose proof (zlen_nonneg pre); lia|].
+  unfold encode_table. cbn [map concat]. rewrite <- app_assoc, zskipn_app.
+  rewrite rent_roundtrip by exact He. cbn [bind].
+  rewrite (apply_one_refines le is64 em rela symvals symval Hem Hsymval Hsym0) by assumption.
+  destruct (spec_apply_one le is64 em rela symvals s e) as [s1|er] eqn:E1; cbn [bind]; [|reflexivity].
+  destruct (spec_apply_one_preserves _ _ _ _ _ _ _ _ Hb E1) as [Hl1 Hb1].
+  change (concat (map (encode_rent le is64 (is64 && is_mips em) rela) es))
+    with (encode_table le is64 (is64 && is_mips em) rela es).
+  rewrite app_assoc.
+  apply (IH (pre ++ encode_rent le is64 (is64 && is_mips em) rela e) (i + 1) s1); try assumption.
+  - rewrite Hl1. exact Haes.
+  - rewrite Hl1. exact Hlen.
+  - rewrite zlen_app, encode_rent_length by exact He. lia.
+Qed.
+End apply_all.
+
+(* SymbolTableSection.get_symbol(n)['st_value'] on a symbol table encoded per the gABI *)
+Definition encode_symtab (le is64 : bool) (syms : list (Z * Z)) : list Z :=
+  List.concat (map (fun p => encode_sym le is64 (fst p) (snd p)) syms).
+Definition sym_wf (is64 : bool) (p : Z * Z) : bool :=
+  inr 0 (2 ^ 32) (fst p) && inr 0 (2 ^ wordbits is64) (snd p).
+Definition sym_entsize (is64 : bool) : Z := if is64 then 24 else 16.
+
+Lemma encode_sym_roundtrip le is64 name value tail :
+  sym_wf is64 (name, value) = true ->
+  exists r, decode_layout (gen_Elf_Sym le is64) (encode_sym le is64 name value ++ tail) = Some (r, tail) /\
+            getf r "st_value" = Ok value.
+Proof.
+  intros H. unfold sym_wf in H. cbn [fst snd] in H. apply andb_prop in H. destruct H as [H1 H2].
+  apply inr_iff in H1, H2.
+  rewrite gen_Elf_Sym_gabi. unfold encode_sym. eexists. split.
+  - apply decode_encode_layout.
+    destruct is64; unfold fits_layout, spec_Elf_Sym, sym_vals_of, st_info_bits, st_other_bits, wordbits in *;
+      layout_cbn; cbn [fits_bits bits_total fold_right snd Nat.add Nat.mul Nat.eqb];
+      unfold in_urange; norm_consts; lia.
+  - destruct is64; cbv - [Z.add Z.mul]; reflexivity.
+Qed.
+
+Lemma encode_sym_length le is64 name value : zlen (encode_sym le is64 name value) = sym_entsize is64.
+Proof.
+  unfold encode_sym, encode_layout, zlen.
+  destruct is64; unfold spec_Elf_Sym, sym_vals_of, st_info_bits, st_other_bits;
+    cbn [encode_fields encode_kind nvals firstn skipn length];
+    rewrite !app_length, !int_encode_length, !be_encode_length; reflexivity.
+Qed.
+
+Theorem symtab_value_exact le is64 tail : forall syms pre n d,
+  forallb (sym_wf is64) syms = true -> (n < length syms)%nat ->
+  symtab_value le is64 (pre ++ encode_symtab le is64 syms ++ tail) (zlen pre) (sym_entsize is64) (Z.of_nat n)
+  = Ok (snd (nth n syms d)).
+Proof.
+  induction syms as [|[nm v] syms IH]; intros pre n d Hwf Hn; [cbn in Hn; lia|].
+  cbn [forallb] in Hwf. apply andb_prop in Hwf. destruct Hwf as [Hw Hws].
+  unfold encode_symtab. cbn [map concat fst snd]. rewrite <- app_assoc.
+  destruct n as [|n].
+  - unfold symtab_value, struct_parse_at. replace (zlen pre + Z.of_nat 0 * sym_entsize is64) with (zlen pre) by lia.
+    destruct (Z.ltb_spec (zlen pre) 0) as [Hneg|_]; [pose proof (zlen_nonneg pre); lia|].
+    rewrite zskipn_app.
+    destruct (encode_sym_roundtrip le is64 nm v (concat (map (fun p => encode_sym le is64 (fst p) (snd p)) syms) ++ tail) Hw)
+      as (r & Hd & Hv).
+    rewrite Hd. cbn [bind nth snd]. exact Hv.
+  - cbn [nth]. cbn [length] in Hn.
+    specialize (IH (pre ++ encode_sym le is64 nm v) n d Hws ltac:(lia)).
+    unfold encode_symtab in IH. rewrite <- app_assoc in IH. rewrite <- IH.
+    unfold symtab_value. rewrite zlen_app, encode_sym_length.
+    replace (zlen pre + Z.of_nat (S n) * sym_entsize is64)
+      with (zlen pre + sym_entsize is64 + Z.of_nat n * sym_entsize is64)
+      by (destruct is64; unfold sym_entsize; lia).
+    reflexivity.
+Qed.
+
+(* RELOCATION DISABLED: the section bytes are returned untouched, whatever the file contains *)
+Theorem no_relocation_when_disabled le is64 em img secs section :
+  read_dwarf_section le is64 em img secs section false
+  = Ok (firstn (Z.to_nat (s_size section)) (zskipn (s_off section) img)).
+Proof. reflexivity. Qed.
+
+(* no relocation section for this section: untouched as well *)
+Theorem no_relocation_section le is64 em img secs section :
+  find_relocations_for_section secs (s_name section) = None ->
+  read_dwarf_section le is64 em img secs section true
+  = Ok (firstn (Z.to_nat (s_size section)) (zskipn (s_off section) img)).
+Proof. intros H. unfold read_dwarf_section. rewrite H. reflexivity. Qed.
+
+(* find_relocations_for_section returns a REL/RELA section with the conventional name, and the first one *)
+Theorem find_relocations_sound : forall secs name rs,
+  find_relocations_for_section secs name = Some rs ->
+  In rs secs /\ (s_type rs = SHT_REL \/ s_type rs = SHT_RELA) /\
+  (bytes_eqb (s_name rs) (dot_rel ++ name) = true \/ bytes_eqb (s_name rs) (dot_rela ++ name) = true).
+Proof.
+  induction secs as [|s secs IH]; intros name rs H; [discriminate|].
+  cbn [find_relocations_for_section] in H.
+  destruct (((s_type s =? SHT_REL) || (s_type s =? SHT_RELA)) &&
+            (bytes_eqb (s_name s) (dot_rel ++ name) || bytes_eqb (s_name s) (dot_rela ++ name))) eqn:E.
+  - inversion H; subst. apply andb_prop in E. destruct E as [E1 E2].
+    apply orb_prop in E1, E2. split; [left; reflexivity|]. split; [lia | exact E2].
+  - destruct (IH _ _ H) as (Hin & Ht & Hn). split; [right; exact Hin | auto].
+Qed.
+
+(* the whole path of ELFFile._read_dwarf_section with relocation enabled, on an image that contains
+   the section, its relocation table (REL or RELA per the section type) and the linked symbol table *)
+Theorem read_dwarf_section_exact le is64 em img secs section rs symtab (rela : bool) es syms
+        pre tail pre2 tail2 :
+  In em listed_machines ->
+  find_relocations_for_section secs (s_name section) = Some rs ->
+  s_type rs = (if rela then SHT_RELA else SHT_REL) ->
+  s_entsize rs = rel_entsize is64 (is64 && is_mips em) rela ->
+  nth_error secs (Z.to_nat (s_link rs)) = Some symtab ->
+  s_entsize symtab = sym_entsize is64 -> s_size symtab = zlen (encode_symtab le is64 syms) ->
+  img = pre ++ encode_table le is64 (is64 && is_mips em) rela es ++ tail ->
+  s_off rs = zlen pre -> s_size rs = zlen (encode_table le is64 (is64 && is_mips em) rela es) ->
+  img = pre2 ++ encode_symtab le is64 syms ++ tail2 -> s_off symtab = zlen pre2 ->
+  forallb (sym_wf is64) syms = true -> snd (nth 0 syms (0, 0)) = 0 ->
+  forallb (rent_wf is64 (is64 && is_mips em) rela) es = true ->
+  let data := firstn (Z.to_nat (s_size section)) (zskipn (s_off section) img) in
+  all_bytes data = true -> zlen data < 2 ^ 63 ->
+  forallb (apply_entry_wf is64 em rela (zlen data)) es = true ->
+  read_dwarf_section le is64 em img secs section true
+  = spec_apply_all le is64 em rela (map snd syms) data es.
+Proof.
+  intros Hem Hfind Htype Hent Hlink Hsent Hssize Himg Hroff Hrsize Himg2 Hsoff Hswf Hs0 Hwf data Hb Hlen Hawf.
+  unfold read_dwarf_section. rewrite Hfind. fold data.
+  assert (Hrela : (s_type rs =? SHT_RELA) = rela) by (rewrite Htype; destruct rela; reflexivity).
+  rewrite Hrela, reloc_section_check_exact, Hent, Z.eqb_refl. cbn [bind].
+  unfold apply_section_relocations. rewrite Hrela, Hlink, Hsent.
+  replace (negb (0 <? sym_entsize is64)) with false by (destruct is64; reflexivity).
+  assert (Hnsyms : symtab_num (s_size symtab) (sym_entsize is64) = zlen (map snd syms)).
+  { unfold symtab_num. rewrite Hssize. unfold encode_symtab.
+    assert (Hl : forall l, zlen (concat (map (fun p => encode_sym le is64 (fst p) (snd p)) l)) = zlen l * sym_entsize is64).
+    { induction l as [|p l IHl]; [reflexivity|]. cbn [map concat]. rewrite zlen_app, zlen_cons, IHl, encode_sym_length. lia. }
+    rewrite Hl. unfold zlen at 2. rewrite map_length. fold (zlen syms).
+    assert (0 < sym_entsize is64) by (destruct is64; reflexivity). nia. }
+  rewrite Hnsyms.
+  assert (Hnum : Z.to_nat (num_relocations (rel_struct le is64 (is_mips em) rela) (s_size rs)) = length es).
+  { rewrite Hrsize. replace (zlen (encode_table le is64 (is64 && is_mips em) rela es))
+      with (zlen (encode_table le is64 (is64 && is_mips em) rela es) + 0) by lia.
+    rewrite num_relocations_exact; [unfold zlen; lia | exact Hwf |].
+    pose proof (rel_entsize_pos is64 (is64 && is_mips em) rela). lia. }
+  rewrite Hnum, Hroff. rewrite Himg at 1.
+  apply apply_loop_refines; try assumption.
+  - intros n Hn. rewrite Himg2, Hsoff.
+    replace n with (Z.of_nat (Z.to_nat n)) at 1 by lia.
+    unfold zlen in Hn. rewrite map_length in Hn.
+    rewrite (symtab_value_exact le is64 tail2 syms pre2 (Z.to_nat n) (0, 0)) by (try assumption; lia).
+    f_equal. exact (eq_sym (map_nth snd syms (0, 0) (Z.to_nat n))).
+  - transitivity (snd (nth 0 syms (0, 0))); [exact (map_nth snd syms (0, 0) 0%nat) | exact Hs0].
+  - lia.
+Qed.
+
+(* ---------- the model itself never skips a relocation (any machine, any input) ---------- *)
+Theorem model_never_skips le is64 em nsyms symval s reloc s' :
+  do_apply_relocation le is64 em nsyms symval s reloc = Ok s' ->
+  exists sym typ fam r,
+    getf reloc "r_info_sym" = Ok sym /\ sym < nsyms /\ getf reloc "r_info_type" = Ok typ /\
+    family_for em (has_field reloc "r_addend") = Some fam /\ recipe_of fam typ = Some r.
+Proof.
+  unfold do_apply_relocation, family_for. intros H.
+  destruct (getf reloc "r_info_sym") as [sym|] eqn:Es; cbn [bind] in H; [|discriminate].
+  destruct (Z.leb_spec nsyms sym) as [Hge|Hlt]; [discriminate|].
+  destruct (symval sym) as [sv|]; cbn [bind] in H; [|discriminate].
+  destruct (getf reloc "r_info_type") as [typ|] eqn:Et; cbn [bind] in H; [|discriminate].
+  destruct (family_of (reloc_dispatch (machine_arch em) (has_field reloc "r_addend"))) as [fam|]; [|discriminate].
+  match type of H with (do _ <- ?c; _) = _ => destruct c as [u|]; cbn [bind] in H; [|discriminate] end.
+  destruct (recipe_of fam typ) as [r|] eqn:Er; [|discriminate].
+  exists sym, typ, fam, r. auto.
+Qed.
+
+(* the model's error class for the three rejection causes, on any machine *)
+Theorem model_reloc_errors le is64 em nsyms symval s reloc sym :
+  getf reloc "r_info_sym" = Ok sym ->
+  (nsyms <= sym -> do_apply_relocation le is64 em nsyms symval s reloc = Err EReloc) /\
+  (forall sv typ, sym < nsyms -> symval sym = Ok sv -> getf reloc "r_info_type" = Ok typ ->
+     family_for em (has_field reloc "r_addend") = None ->
+     do_apply_relocation le is64 em nsyms symval s reloc = Err EReloc).
+Proof.
+  intros Es. unfold do_apply_relocation, family_for. rewrite Es. cbn [bind]. split.
+  - intros H. destruct (Z.leb_spec nsyms sym); [reflexivity|lia].
+  - intros sv typ H Hsv Ht Hf. destruct (Z.leb_spec nsyms sym); [lia|].
+    rewrite Hsv, Ht. cbn [bind]. rewrite Hf. reflexivity.
+Qed.
+
+(* ---------- dynamic tables ---------- *)
+Lemma first_tag_exact l1 t v l2 :
+  forallb (fun p => negb (fst p =? t) && negb (fst p =? 0)) l1 = true ->
+  first_tag (l1 ++ (t, v) :: l2) t = Some v.
+Proof.
+  induction l1 as [|[tg x] l1 IH]; intros H.
+  - cbn [app first_tag]. rewrite Z.eqb_refl. reflexivity.
+  - cbn [forallb fst] in H. apply andb_prop in H. destruct H as [H1 H2].
+    apply andb_prop in H1. destruct H1 as [Ha Hb].
+    cbn [app first_tag]. destruct (tg =? t); [discriminate|]. destruct (tg =? 0); [discriminate|].
+    apply IH. exact H2.
+Qed.
+
+(* tags after the DT_NULL terminator do not exist *)
+Lemma first_tag_after_null l1 l2 t :
+  t <> 0 -> forallb (fun p => negb (fst p =? t)) l1 = true ->
+  first_tag (l1 ++ (0, 0) :: l2) t = None.
+Proof.
+  intros Ht. induction l1 as [|[tg x] l1 IH]; intros H.
+  - cbn [app first_tag]. destruct (Z.eqb_spec 0 t); [congruence|reflexivity].
+  - cbn [forallb fst] in H. apply andb_prop in H. destruct H as [H1 H2].
+    cbn [app first_tag]. destruct (tg =? t); [discriminate|]. destruct (tg =? 0); [reflexivity|].
+    apply IH. exact H2.
+Qed.
+
+Lemma address_offset_exact l1 off vaddr filesz l2 addr :
+  forallb (fun sg => match sg with (o, v, fz) => negb ((v <=? addr) && (addr + 1 <=? v + fz)) end) l1 = true ->
+  vaddr <= addr < vaddr + filesz ->
+  address_offset (l1 ++ (off, vaddr, filesz) :: l2) addr = Some (addr - vaddr + off).
+Proof.
+  induction l1 as [|[[o v] fz] l1 IH]; intros H Hin.
+  - cbn [app address_offset]. replace ((vaddr <=? addr) && (addr + 1 <=? vaddr + filesz)) with true by lia.
+    reflexivity.
+  - cbn [forallb] in H. apply andb_prop in H. destruct H as [H1 H2].
+    cbn [app address_offset]. destruct ((v <=? addr) && (addr + 1 <=? v + fz)); [discriminate|].
+    apply IH; assumption.
+Qed.
+
+Definition opt_tab {A} (o : option Z) (f : Z -> A) : list A :=
+  match o with Some p => [f p] | None => [] end.
+
+(* Dynamic.get_relocation_tables: exactly one table per pointer tag present before DT_NULL, at the
+   file offset of its address, with the announced size and flavour *)
+Theorem dynamic_tables_exact le is64 em tags segs relsz relasz relrsz pltsz pltrel :
+  (first_tag tags DT_REL <> None ->
+     first_tag tags DT_RELSZ = Some relsz /\
+     first_tag tags DT_RELENT = Some (rel_entsize is64 (is64 && is_mips em) false)) ->
+  (first_tag tags DT_RELA <> None ->
+     first_tag tags DT_RELASZ = Some relasz /\
+     first_tag tags DT_RELAENT = Some (rel_entsize is64 (is64 && is_mips em) true)) ->
+  (first_tag tags DT_RELR <> None ->
+     first_tag tags DT_RELRSZ = Some relrsz /\ first_tag tags DT_RELRENT = Some (wordsize is64)) ->
+  (first_tag tags DT_JMPREL <> None ->
+     first_tag tags DT_PLTRELSZ = Some pltsz /\ first_tag tags DT_PLTREL = Some pltrel) ->
+  get_relocation_tables le is64 em tags segs
+  = Ok (opt_tab (first_tag tags DT_REL) (fun p => TRel "REL" (table_offset segs p) relsz false) ++
+        opt_tab (first_tag tags DT_RELA) (fun p => TRel "RELA" (table_offset segs p) relasz true) ++
+        opt_tab (first_tag tags DT_RELR) (fun p => TRelr (table_offset segs p) relrsz (wordsize is64)) ++
+        opt_tab (first_tag tags DT_JMPREL) (fun p => TRel "JMPREL" (table_offset segs p) pltsz (pltrel =? 7))).
+Proof.
+  intros H1 H2 H3 H4. unfold get_relocation_tables, need.
+  destruct (first_tag tags DT_REL) as [p1|].
+  - destruct (H1 ltac:(discriminate)) as [E1 E2]. rewrite E1, E2. cbn [bind].
+    rewrite rel_struct_sizeof, Z.eqb_refl. cbn [bind opt_tab].
+    destruct (first_tag tags DT_RELA) as [p2|].
+    + destruct (H2 ltac:(discriminate)) as [E3 E4]. rewrite E3, E4. cbn [bind].
+      rewrite rel_struct_sizeof, Z.eqb_refl. cbn [bind opt_tab].
+      destruct (first_tag tags DT_RELR) as [p3|].
+      * destruct (H3 ltac:(discriminate)) as [E5 E6]. rewrite E5, E6. cbn [bind].
+        rewrite relr_sizeof, Z.eqb_refl. cbn [bind opt_tab].
+        destruct (first_tag tags DT_JMPREL) as [p4|]; [|reflexivity].
+        destruct (H4 ltac:(discriminate)) as [E7 E8]. rewrite E7, E8. reflexivity.
+      * cbn [bind opt_tab]. destruct (first_tag tags DT_JMPREL) as [p4|]; [|reflexivity].
+        destruct (H4 ltac:(discriminate)) as [E7 E8]. rewrite E7, E8. reflexivity.
+    + cbn [bind opt_tab].
+      destruct (first_tag tags DT_RELR) as [p3|].
+      * destruct (H3 ltac:(discriminate)) as [E5 E6]. rewrite E5, E6. cbn [bind].
+        rewrite relr_sizeof, Z.eqb_refl. cbn [bind opt_tab].
+        destruct (first_tag tags DT_JMPREL) as [p4|]; [|reflexivity].
+        destruct (H4 ltac:(discriminate)) as [E7 E8]. rewrite E7, E8. reflexivity.
+      * cbn [bind opt_tab]. destruct (first_tag tags DT_JMPREL) as [p4|]; [|reflexivity].
+        destruct (H4 ltac:(discriminate)) as [E7 E8]. rewrite E7, E8. reflexivity.
+  - cbn [bind opt_tab].
+    destruct (first_tag tags DT_RELA) as [p2|].
+    + destruct (H2 ltac:(discriminate)) as [E3 E4]. rewrite E3, E4. cbn [bind].
+      rewrite rel_struct_sizeof, Z.eqb_refl. cbn [bind opt_tab].
+      destruct (first_tag tags DT_RELR) as [p3|].
+      * destruct (H3 ltac:(discriminate)) as [E5 E6]. rewrite E5, E6. cbn [bind].
+        rewrite relr_sizeof, Z.eqb_refl. cbn [bind opt_tab].
+        destruct (first_tag tags DT_JMPREL) as [p4|]; [|reflexivity].
+        destruct (H4 ltac:(discriminate)) as [E7 E8]. rewrite E7, E8. reflexivity.
+      * cbn [bind opt_tab]. destruct (first_tag tags DT_JMPREL) as [p4|]; [|reflexivity].
+        destruct (H4 ltac:(discriminate)) as [E7 E8]. rewrite E7, E8. reflexivity.
+    + cbn [bind opt_tab].
+      destruct (first_tag tags DT_RELR) as [p3|].
+      * destruct (H3 ltac:(discriminate)) as [E5 E6]. rewrite E5, E6. cbn [bind].
+        rewrite relr_sizeof, Z.eqb_refl. cbn [bind opt_tab].
+        destruct (first_tag tags DT_JMPREL) as [p4|]; [|reflexivity].
+        destruct (H4 ltac:(discriminate)) as [E7 E8]. rewrite E7, E8. reflexivity.
+      * cbn [bind opt_tab]. destruct (first_tag tags DT_JMPREL) as [p4|]; [|reflexivity].
+        destruct (H4 ltac:(discriminate)) as [E7 E8]. rewrite E7, E8. reflexivity.
+Qed.
+
+(* ---------- the table theorems per record type, as stated in Props/C08.v ---------- *)
+Theorem rel_roundtrip le is64 es pre tail slack :
+  forallb (rent_wf is64 false false) es = true ->
+  0 <= slack < rel_entsize is64 false false ->
+  iter_relocations (gen_Elf_Rel le is64) (pre ++ encode_table le is64 false false es ++ tail)
+                   (zlen pre) (zlen (encode_table le is64 false false es) + slack)
+  = Ok (map (rent_view is64 false false) es).
+Proof.
+  intros H Hs. pose proof (table_roundtrip le is64 false false es pre tail slack) as T.
+  rewrite andb_false_r in T. specialize (T H Hs).
+  replace (rel_struct le is64 false false) with (gen_Elf_Rel le is64) in T by (destruct is64; reflexivity).
+  exact T.
+Qed.
+
+Theorem rela_roundtrip le is64 es pre tail slack :
+  forallb (rent_wf is64 false true) es = true ->
+  0 <= slack < rel_entsize is64 false true ->
+  iter_relocations (gen_Elf_Rela le is64) (pre ++ encode_table le is64 false true es ++ tail)
+                   (zlen pre) (zlen (encode_table le is64 false true es) + slack)
+  = Ok (map (rent_view is64 false true) es).
+Proof.
+  intros H Hs. pose proof (table_roundtrip le is64 false true es pre tail slack) as T.
+  rewrite andb_false_r in T. specialize (T H Hs).
+  replace (rel_struct le is64 false true) with (gen_Elf_Rela le is64) in T by (destruct is64; reflexivity).
+  exact T.
+Qed.
+
+Theorem mips64_split le (rela : bool) es pre tail slack :
+  forallb (rent_wf true true rela) es = true ->
+  0 <= slack < rel_entsize true true rela ->
+  iter_relocations (if rela then gen_Elf_Rela_mips64 le else gen_Elf_Rel_mips64 le)
+                   (pre ++ encode_table le true true rela es ++ tail)
+                   (zlen pre) (zlen (encode_table le true true rela es) + slack)
+  = Ok (map (rent_view true true rela) es).
+Proof. exact (table_roundtrip le true true rela es pre tail slack). Qed.
+
+(* every relocation record the code can choose is one of the three above *)
+Theorem rel_struct_cases le is64 mips rela :
+  rel_struct le is64 mips rela =
+  if is64 && mips then (if rela then gen_Elf_Rela_mips64 le else gen_Elf_Rel_mips64 le)
+  else (if rela then gen_Elf_Rela le is64 else gen_Elf_Rel le is64).
+Proof. reflexivity. Qed.
